@@ -24,6 +24,10 @@ def _is_desc_range(it: ast.expr) -> Optional[bool]:
         if it.func.id == "reversed" and len(it.args) == 1:
             inner = _is_desc_range(it.args[0])
             return None if inner is None else (not inner)
+        if it.func.id in ("list", "tuple") and len(it.args) == 1 and not it.keywords:
+            return _is_desc_range(it.args[0])          # a snapshot of the same (index, element) pairs
+        if it.func.id == "enumerate" and 1 <= len(it.args) <= 2:
+            return False
         if it.func.id == "range":
             if len(it.args) == 1:
                 return False
@@ -57,8 +61,11 @@ def splice_safety(ctx: Ctx) -> None:
             ctx.check(not stores_to_iter, "C09.splice", "a loop over the elements appends to a fresh list (does not edit the list it iterates)", TLT,
                       f"for ... in {norm(lp.iter)}", "TagList.tagify edits the list it is iterating over")
     else:
-        # explicit index loop: after a splice of n nodes the index must advance by exactly n
         ctx.require(isinstance(lp, ast.While), "TagList.tagify: loop form not modelled")
+        if _is_countdown(fn, lp):
+            ctx.ok("C09.splice", "index loop runs from the last index down: length-changing splices do not disturb unvisited positions")
+            return
+        # explicit index loop: after a splice of n nodes the index must advance by exactly n
         advances = [n for n in ast.walk(lp) if isinstance(n, ast.AugAssign) and isinstance(n.op, ast.Add) and isinstance(n.target, ast.Name)]
         ctx.require(bool(slice_stores) and bool(advances), "TagList.tagify: explicit index loop without recognisable splice/advance")
         for st in slice_stores:
@@ -75,6 +82,34 @@ def splice_safety(ctx: Ctx) -> None:
                           f"after `{norm(st)}` the index advances by `{ast.unparse(e)}` instead of the number of spliced nodes: when an expansion is "
                           f"empty (or longer than assumed) the next sibling is skipped / re-visited and stays un-expanded",
                           witness="TagList(Empty(), T()).tagify() where Empty().tagify() returns TagList()")
+
+
+def _is_countdown(fn: ast.AST, lp: ast.While) -> bool:
+    """`i = len(x)` ... `while i > 0: i -= 1; BODY` with no other assignment to i inside the loop."""
+    t = lp.test
+    if not (isinstance(t, ast.Compare) and len(t.ops) == 1 and isinstance(t.left, ast.Name) and isinstance(t.comparators[0], ast.Constant)):
+        return False
+    i = t.left.id
+    if not ((isinstance(t.ops[0], ast.Gt) and t.comparators[0].value == 0) or (isinstance(t.ops[0], ast.GtE) and t.comparators[0].value == 1)):
+        return False
+    if lp.orelse or not lp.body:
+        return False
+    first = lp.body[0]
+    if not (isinstance(first, ast.AugAssign) and isinstance(first.op, ast.Sub) and isinstance(first.target, ast.Name) and first.target.id == i
+            and isinstance(first.value, ast.Constant) and first.value.value == 1):
+        return False
+    stores = [n for n in ast.walk(lp) if isinstance(n, ast.Name) and n.id == i and isinstance(n.ctx, ast.Store)]
+    if len(stores) != 1:
+        return False
+    # initialised from len(...) right before the loop
+    for blk in [getattr(n, f, None) for n in ast.walk(fn) for f in ("body", "orelse")]:
+        if isinstance(blk, list) and any(x is lp for x in blk):
+            k = [j for j, x in enumerate(blk) if x is lp][0]
+            for prev in reversed(blk[:k]):
+                if any(isinstance(n, ast.Name) and n.id == i for n in ast.walk(prev)):
+                    return isinstance(prev, ast.Assign) and len(prev.targets) == 1 and isinstance(prev.targets[0], ast.Name) and prev.targets[0].id == i \
+                        and isinstance(prev.value, ast.Call) and isinstance(prev.value.func, ast.Name) and prev.value.func.id == "len" and len(prev.value.args) == 1
+    return False
 
 
 def _enclosing_block(root: ast.AST, st: ast.stmt) -> Optional[List[ast.stmt]]:
